@@ -64,6 +64,9 @@ def concStep (s : CS) (toks : List String) : Option (CS × String) :=
   | ["cfinal"] =>
     let woken := (List.range s.ths.length).filter fun i => match s.ths[i]? with | some th => th.woken | none => false
     some (s, "value=" ++ toString s.value ++ " closed=" ++ (if s.version = 0 then "1" else "0") ++ " woken=" ++ showList woken)
+  | ["cfinalq"] =>     -- programs without a monitor subscriber whose state is gone: nobody can read the value
+    let woken := (List.range s.ths.length).filter fun i => match s.ths[i]? with | some th => th.woken | none => false
+    some (s, "closed=" ++ (if s.version = 0 then "1" else "0") ++ " woken=" ++ showList woken)
   | _ => none
 
 end EV
